@@ -34,12 +34,15 @@ const GOLDEN: &[(&str, &[&str])] = &[
      &["A LPeers W", "C Peer::handle_handshake_response", "C Network::request_blockchain_from_peer"]),
     ("saito_core::network::Network::request_blockchain_from_peer",
      &["A LCfg R", "A LBlockchain R", "R LBlockchain", "R LCfg"]),
-    // peer.rs: configuration read in its own block, then wallet
+    // peer.rs: the response is built and sent under the wallet read guard (whether the configuration is read
+    // here, under the caller's peers guard, is a listed finding -- deliberately not pinned, so that moving that
+    // read into Network does not trip the translator alarm)
     ("saito_core::peer::Peer::handle_handshake_challenge",
-     &["A LCfg R", "R LCfg", "A LWallet R", "C send_message", "R LWallet"]),
-    // saitowasm.rs: the gate first
+     &["A LWallet R", "C send_message", "R LWallet"]),
+    // saitowasm.rs: the gate first and last, the transaction is created under the wallet write guard (the relative
+    // order of wallet / configuration / blockchain inside the gate is a listed finding -- not pinned)
     ("saito_wasm::saitowasm::create_transaction",
-     &["A LSaito W", "A LWallet W", "A LCfg R", "A LBlockchain R", "C Transaction::create", "R LBlockchain", "R LCfg", "R LWallet", "R LSaito"]),
+     &["A LSaito W", "A LWallet W", "C Transaction::create", "R LWallet", "R LSaito"]),
     // saito-rust main.rs: wallet guard in its own block; configuration read as a temporary of the Context::new statement,
     // released at its end; then configuration and blockchain guards to the end of the function
     ("saito_rust::main::run_utxo_to_issuance_converter",
